@@ -1686,12 +1686,17 @@ class Frame {
   size_t offset;
   // The running maximum size of the frame.
   size_t size;
+  // The running maximum size of the outgoing area at the bottom of the frame
+  // (link, return value and actual parameters of the calls made).  It is
+  // accounted separately so that temporaries never share words with it.
+  size_t outgoing;
   // Exit label.
   std::string exitLabel;
 
 public:
-  Frame(std::string exitLabel) : offset(0), size(0), exitLabel(exitLabel) {}
-  int getSize() { return size; }
+  Frame(std::string exitLabel) : offset(0), size(0), outgoing(0), exitLabel(exitLabel) {}
+  int getSize() { return size + outgoing; }
+  void reserveOutgoing(size_t amount) { outgoing = std::max(outgoing, amount); }
   void incOffset(int amount) {
     offset += amount;
     size = std::max(size, offset); // +1 since it's an offset?
@@ -2540,10 +2545,10 @@ public:
     }
   }
 
-  /// Generate actual parameters that contain calls.
+  /// Generate actual parameters that contain calls. Their saved results stay
+  /// allocated until the call has been made.
   void genCallActuals(const std::vector<std::unique_ptr<Expr>> &args,
                       const std::string &currentScope) {
-    size_t stackOffset = currentFrame->getOffset();
     for (auto &arg : args) {
       if (containsCall(arg)) {
         // For each actual expression containing one or more calls, allocate a
@@ -2556,13 +2561,12 @@ public:
         currentFrame->incOffset(1);
       }
     }
-    // Restore the stack pointer offset so loadActuals can sequence through
-    // the call actual locations again.
-    currentFrame->setOffset(stackOffset);
   }
 
+  /// Store the actual parameters to their slots; savedOffset is the frame
+  /// offset of the first result saved by genCallActuals.
   void loadActuals(const std::vector<std::unique_ptr<Expr>> &args, size_t parameterOffset,
-                   const std::string &currentScope) {
+                   const std::string &currentScope, size_t savedOffset) {
     size_t parameterIndex = parameterOffset;
     for (auto &arg : args) {
       if (containsCall(arg)) {
@@ -2570,8 +2574,8 @@ public:
         // expression value saved to a temporary stack location and store it
         // to the actual parameter location.
         genLDAM(SP_OFFSET);
-        genLDAI_FB(currentFrame, -currentFrame->getOffset());
-        currentFrame->incOffset(1);
+        genLDAI_FB(currentFrame, -savedOffset);
+        savedOffset++;
         genLDBM(SP_OFFSET);
         genSTAI(parameterIndex);
       } else {
@@ -2590,8 +2594,8 @@ public:
     auto stackOffset = currentFrame->getOffset();
     // Actual parameters.
     genCallActuals(args, currentScope);
-    loadActuals(args, FB_PARAM_OFFSET_FUNC, currentScope);
-    currentFrame->incOffset(args.size() + FB_PARAM_OFFSET_FUNC);
+    loadActuals(args, FB_PARAM_OFFSET_FUNC, currentScope, stackOffset);
+    currentFrame->reserveOutgoing(args.size() + FB_PARAM_OFFSET_FUNC);
     // Perform syscall.
     genLDAC(syscallId);
     genOPR(hexasm::Token::SVC);
@@ -2606,8 +2610,8 @@ public:
     auto stackOffset = currentFrame->getOffset();
     // Actual parameters.
     genCallActuals(args, currentScope);
-    loadActuals(args, FB_PARAM_OFFSET_FUNC, currentScope);
-    currentFrame->incOffset(args.size() + FB_PARAM_OFFSET_FUNC);
+    loadActuals(args, FB_PARAM_OFFSET_FUNC, currentScope, stackOffset);
+    currentFrame->reserveOutgoing(args.size() + FB_PARAM_OFFSET_FUNC);
     // Branch and link.
     auto linkLabel = getLabel();
     genLDAP(linkLabel);
@@ -2624,8 +2628,8 @@ public:
     auto stackOffset = currentFrame->getOffset();
     // Actual parameters.
     genCallActuals(args, currentScope);
-    loadActuals(args, FB_PARAM_OFFSET_PROC, currentScope);
-    currentFrame->incOffset(args.size() + FB_PARAM_OFFSET_PROC);
+    loadActuals(args, FB_PARAM_OFFSET_PROC, currentScope, stackOffset);
+    currentFrame->reserveOutgoing(args.size() + FB_PARAM_OFFSET_PROC);
     // Branch and link.
     auto linkLabel = getLabel();
     genLDAP(linkLabel);
